@@ -202,48 +202,9 @@ fn random_players(rng: &mut Rng, board: &[u8; 5], n: usize, share_ranks: bool) -
     (0..n).map(|i| pid(live[2 * i], live[2 * i + 1])).collect()
 }
 
-pub fn run(ctx: &Ctx) -> Report {
-    let mut report = Report::new();
-    if let Err(e) = ranker::self_check() {
-        report.inconclusive(format!("oracle self-check failed: {}", e));
-        return report;
-    }
-    let thorough = ctx.tier == Tier::Thorough;
-    let mut jobs: Vec<Job> = Vec::new();
-    for i in 0..ctx.tier.pick(400, 4000) {
-        jobs.push(Job::Random { n: 1000, index: i as u64 });
-    }
-    let mut rng = Rng::derive(ctx.seed, "c03-boards", 0);
-    let mut headsup_boards: Vec<[u8; 5]> = vec![board(TIE_BOARDS[0]), board(TIE_BOARDS[4]), board(TIE_BOARDS[6])];
-    if thorough {
-        for t in TIE_BOARDS.iter().skip(1) {
-            headsup_boards.push(board(t));
-        }
-        for _ in 0..8 {
-            let v = rng.sample(52, 5);
-            headsup_boards.push([v[0] as u8, v[1] as u8, v[2] as u8, v[3] as u8, v[4] as u8]);
-        }
-    } else {
-        let v = rng.sample(52, 5);
-        headsup_boards.push([v[0] as u8, v[1] as u8, v[2] as u8, v[3] as u8, v[4] as u8]);
-    }
-    for b in &headsup_boards {
-        let mut lo = 0;
-        while lo < 1081 {
-            jobs.push(Job::HeadsUp { board: *b, lo, hi: (lo + 60).min(1081) });
-            lo += 60;
-        }
-    }
-    for i in 0..ctx.tier.pick(8, 64) {
-        jobs.push(Job::Collisions { index: i as u64 });
-        jobs.push(Job::TieBoards { index: i as u64 });
-    }
-    let seed = ctx.seed;
-    let results = par_run(
-        jobs.len(),
-        1,
-        |_| (Report::new(), Tally::default()),
-        |(report, tally), j| match &jobs[j] {
+
+fn run_job(job: &Job, seed: u64, report: &mut Report, tally: &mut Tally) {
+    match job {
             Job::Random { n, index } => {
                 let mut rng = Rng::derive(seed, "c03-random", *index);
                 for _ in 0..*n {
@@ -305,7 +266,51 @@ pub fn run(ctx: &Ctx) -> Report {
                     }
                 }
             }
-        },
+    }
+}
+
+pub fn run(ctx: &Ctx) -> Report {
+    let mut report = Report::new();
+    if let Err(e) = ranker::self_check() {
+        report.inconclusive(format!("oracle self-check failed: {}", e));
+        return report;
+    }
+    let thorough = ctx.tier == Tier::Thorough;
+    let mut jobs: Vec<Job> = Vec::new();
+    for i in 0..ctx.tier.pick(400, 4000) {
+        jobs.push(Job::Random { n: 1000, index: i as u64 });
+    }
+    let mut rng = Rng::derive(ctx.seed, "c03-boards", 0);
+    let mut headsup_boards: Vec<[u8; 5]> = vec![board(TIE_BOARDS[0]), board(TIE_BOARDS[4]), board(TIE_BOARDS[6])];
+    if thorough {
+        for t in TIE_BOARDS.iter().skip(1) {
+            headsup_boards.push(board(t));
+        }
+        for _ in 0..8 {
+            let v = rng.sample(52, 5);
+            headsup_boards.push([v[0] as u8, v[1] as u8, v[2] as u8, v[3] as u8, v[4] as u8]);
+        }
+    } else {
+        let v = rng.sample(52, 5);
+        headsup_boards.push([v[0] as u8, v[1] as u8, v[2] as u8, v[3] as u8, v[4] as u8]);
+    }
+    for b in &headsup_boards {
+        let mut lo = 0;
+        while lo < 1081 {
+            jobs.push(Job::HeadsUp { board: *b, lo, hi: (lo + 60).min(1081) });
+            lo += 60;
+        }
+    }
+    for i in 0..ctx.tier.pick(8, 64) {
+        jobs.push(Job::Collisions { index: i as u64 });
+        jobs.push(Job::TieBoards { index: i as u64 });
+    }
+    let seed = ctx.seed;
+    let results = par_run(
+        jobs.len(),
+        1,
+        |_| (Report::new(), Tally::default()),
+        |(report, tally), j| run_job(&jobs[j], seed, report, tally),
     );
     let mut tally = Tally::default();
     for (r, t) in results {
@@ -317,6 +322,7 @@ pub fn run(ctx: &Ctx) -> Report {
         tally.all_tie += t.all_tie;
         tally.collisions += t.collisions;
     }
+    dev_pass(ctx, &mut report);
     let hist = |h: &[u64; 24]| {
         let mut o = Json::obj();
         for (i, c) in h.iter().enumerate() {
@@ -353,8 +359,68 @@ pub fn run(ctx: &Ctx) -> Report {
     report
 }
 
+/// Dev-profile batch (child built with overflow checks and debug assertions): random showdowns with
+/// 1..23 players, tie boards, collisions; shard `part` of `parts`.
+fn dev_batch(seed: u64, part: usize, parts: usize) -> Report {
+    let mut jobs: Vec<Job> = Vec::new();
+    for i in 0..24 {
+        jobs.push(Job::Random { n: 1000, index: 900_000 + i });
+    }
+    for i in 0..6 {
+        jobs.push(Job::Collisions { index: 900_000 + i });
+        jobs.push(Job::TieBoards { index: 900_000 + i });
+    }
+    let mut report = Report::new();
+    let mut tally = Tally::default();
+    for (i, job) in jobs.iter().enumerate() {
+        if i % parts == part {
+            run_job(job, seed, &mut report, &mut tally);
+        }
+    }
+    report.count("dev_profile_showdowns", report.evaluations);
+    report.max("max_dev_profile_player_count", tally.players_hist.iter().rposition(|c| *c > 0).unwrap_or(0) as u64);
+    report
+}
+
+fn dev_pass(ctx: &Ctx, report: &mut Report) {
+    use crate::child::{self, ChildOutcome};
+    let exe = match Ctx::exe_for("debug") {
+        Some(e) => e,
+        None => {
+            report.inconclusive("no dev-profile binary available (VERIF_DEBUG_EXE not set)");
+            return;
+        }
+    };
+    let parts = 12usize;
+    let results = par_run(parts, 1, |_| Report::new(), |r, part| {
+        let case = Json::obj().set("kind", Json::str("dev-batch")).set("seed", Json::Int(ctx.seed as i128)).set("part", Json::Int(part as i128)).set("parts", Json::Int(parts as i128));
+        match child::run_case(&exe, "C03", &case, 8 << 20, std::time::Duration::from_secs(900)) {
+            ChildOutcome::Reported(doc) => {
+                let ev = r.evaluations;
+                child::merge_child_report(r, &doc, "debug:");
+                r.evaluations = ev;
+            }
+            ChildOutcome::Crashed { signal, code, stack_overflow, stderr_tail } => r.violate(
+                format!("debug:dev-batch-{}:crash", part),
+                format!("[dev profile] the showdown batch {} died (signal {:?}, code {:?}, stack overflow {}): {}", part, signal, code, stack_overflow, stderr_tail),
+                case,
+            ),
+            ChildOutcome::Timeout { after_s } => r.inconclusive(format!("dev-profile batch {} timed out after {:.0}s", part, after_s)),
+            ChildOutcome::SpawnFailed(e) => r.inconclusive(format!("dev-profile batch {}: {}", part, e)),
+        }
+    });
+    for r in results {
+        report.merge(r);
+    }
+    child::cleanup_scratch();
+}
+
 pub fn replay(case: &Json) -> Report {
     let mut report = Report::new();
+    if case.get("kind").and_then(|k| k.as_str()) == Some("dev-batch") {
+        let get = |k: &str| case.get(k).and_then(|v| v.as_i128()).unwrap_or(0);
+        return dev_batch(get("seed") as u64, get("part") as usize, (get("parts") as usize).max(1));
+    }
     match SdCase::from_json(case) {
         Some(c) => check(&c, None, &mut report, &mut Tally::default()),
         None => report.inconclusive("replay case is not a showdown case"),
